@@ -46,6 +46,7 @@ typedef struct vx_result {
 	uint32_t npoints;
 	uint64_t nsteps;
 	uint32_t maxthreads;
+	uint32_t nspurious;   // waits that were answered without a wake-up in this execution
 	uint64_t vt_end;
 	uint64_t outcome_hash;
 	uint64_t trace_hash;
